@@ -11,3 +11,48 @@ CONSTANTS = {
     ],
 }
 FUNCTIONS = {}
+
+# ---- shape items: each regex pins (whitespace-insensitively) a critical expression, guard or
+# statement order that the Lean model in lean/ArrowModel/C19 mirrors; the single group captures
+# a literal inside it.  Editing the pinned text makes the item LOST (`<name>_lost = true`), which
+# breaks the obligation `ArrowModel.C19.source_shape_ties`.
+_BCI = "arrow-buffer/src/util/bit_chunk_iterator.rs"
+_BM = "arrow-buffer/src/util/bit_mask.rs"
+_NB = "arrow-buffer/src/buffer/null.rs"
+CONSTANTS["C19"] += [
+    # BitChunks::new: byte/bit offset split and chunk/remainder split
+    ("SHAPE_BITCHUNKS_NEW", _BCI,
+     r"let byte_offset = offset / 8;\s*let bit_offset = offset % 8;\s*// number of complete u64 chunks\s*let chunk_len = len / (64);\s*// number of remaining bits\s*let remainder_len = len % 64;\s*BitChunks::<'a> \{\s*buffer: &buffer\[byte_offset\.\.\],", "int"),
+    # BitChunkIterator::next: the combined word from the current word and one more byte
+    ("SHAPE_BITCHUNKS_NEXT", _BCI,
+     r"let combined = if bit_offset == 0 \{\s*current\s*\} else \{[\s\S]*?let next =\s*unsafe \{ std::ptr::read_unaligned\(raw_data\.add\(index \+ 1\)\.cast::<u8>\(\)\) as u64 \};\s*\(current >> bit_offset\) \| \(next << \((64) - bit_offset\)\)\s*\};\s*self\.index = index \+ 1;", "int"),
+    # BitChunks::remainder_bits: byte count, byte-wise assembly, final mask
+    ("SHAPE_REMAINDER_BITS", _BCI,
+     r"let byte_len = ceil\(bit_len \+ bit_offset, (8)\);[\s\S]*?\.add\(self\.chunk_len \* std::mem::size_of::<u64>\(\)\)\s*\};\s*let mut bits = unsafe \{ std::ptr::read\(base\) \} as u64 >> bit_offset;\s*for i in 1\.\.byte_len \{\s*let byte = unsafe \{ std::ptr::read\(base\.add\(i\)\) \};\s*bits \|= \(byte as u64\) << \(i \* 8 - bit_offset\);\s*\}\s*bits & \(\(1 << bit_len\) - 1\)", "int"),
+    # set_bits: the accumulation loop
+    ("SHAPE_SET_BITS_LOOP", _BM,
+     r"let mut null_count = (0);\s*let mut acc = 0;\s*while len > acc \{[\s\S]*?set_upto_64bits\(\s*write_data,\s*data,\s*offset_write \+ acc,\s*offset_read \+ acc,\s*len - acc,\s*\)\s*\};\s*null_count \+= n;\s*acc \+= len_set;\s*\}\s*null_count", "int"),
+    # set_upto_64bits: offset decomposition and the branch structure for len >= 64
+    ("SHAPE_SET_UPTO_64_SPLIT", _BM,
+     r"let read_byte = offset_read / 8;\s*let read_shift = offset_read % 8;\s*let write_byte = offset_write / 8;\s*let write_shift = offset_write % 8;\s*if len >= (64) \{\s*let chunk = unsafe \{ data\.as_ptr\(\)\.add\(read_byte\)\.cast::<u64>\(\)\.read_unaligned\(\) \};\s*if read_shift == 0 \{\s*if write_shift == 0 \{", "int"),
+    ("SHAPE_SET_UPTO_64_WRITE_SHIFT", _BM,
+     r"// only write shifting necessary\s*let len = (64) - write_shift;\s*let chunk = chunk << write_shift;\s*let null_count = len - chunk\.count_ones\(\) as usize;\s*unsafe \{ or_write_u64_bytes\(write_data, write_byte, chunk\) \};", "int"),
+    ("SHAPE_SET_UPTO_64_BOTH_SHIFT", _BM,
+     r"\} else \{\s*let len = (64) - std::cmp::max\(read_shift, write_shift\);\s*let chunk = \(chunk >> read_shift\) << write_shift;\s*let null_count = len - chunk\.count_ones\(\) as usize;\s*unsafe \{ or_write_u64_bytes\(write_data, write_byte, chunk\) \};", "int"),
+    ("SHAPE_SET_UPTO_64_ONE_BIT", _BM,
+     r"\} else if len == (1) \{\s*let byte_chunk = \(unsafe \{ data\.get_unchecked\(read_byte\) \} >> read_shift\) & 1;\s*unsafe \{ \*write_data\.get_unchecked_mut\(write_byte\) \|= byte_chunk << write_shift \};\s*\(\(byte_chunk \^ 1\) as usize, 1\)", "int"),
+    ("SHAPE_SET_UPTO_64_SHORT", _BM,
+     r"let len = std::cmp::min\(len, (64) - std::cmp::max\(read_shift, write_shift\)\);\s*let bytes = ceil\(len \+ read_shift, 8\);[\s\S]*?let mask = u64::MAX >> \(64 - len\);\s*let chunk = \(chunk >> read_shift\) & mask;[^\n]*\n\s*let chunk = chunk << write_shift;[^\n]*\n\s*let null_count = len - chunk\.count_ones\(\) as usize;\s*let bytes = ceil\(len \+ write_shift, 8\);", "int"),
+    # or_write_u64_bytes ORs only the first byte of the destination into the chunk before the store
+    ("SHAPE_OR_WRITE", _BM,
+     r"let ptr = unsafe \{ data\.as_mut_ptr\(\)\.add\(offset\) \};\s*let chunk = chunk \| \(unsafe \{ \*ptr \}\) as u(64);\s*unsafe \{ ptr\.cast::<u64>\(\)\.write_unaligned\(chunk\) \};", "int"),
+]
+_BU = "arrow-buffer/src/util/bit_util.rs"
+CONSTANTS["C19"] += [
+    # NullBuffer::expand: every valid bit i becomes bits i*count .. i*count+count; null count scales
+    ("SHAPE_NULL_EXPAND", _NB,
+     r"let capacity = self\.buffer\.len\(\)\.checked_mul\(count\)\.unwrap\(\);\s*let mut buffer = MutableBuffer::new_null\(capacity\);[\s\S]*?for i in (0)\.\.self\.buffer\.len\(\) \{\s*if self\.is_null\(i\) \{\s*continue;\s*\}\s*for j in 0\.\.count \{\s*crate::bit_util::set_bit\(buffer\.as_mut\(\), i \* count \+ j\)\s*\}\s*\}\s*Self \{\s*buffer: BooleanBuffer::new\(buffer\.into\(\), 0, capacity\),\s*null_count: self\.null_count \* count,", "int"),
+    # apply_bitwise_binary_op: align the left side to a byte first, then the byte-aligned helper
+    ("SHAPE_APPLY_BINARY_ALIGN", _BU,
+     r"let bit_offset = left_offset_in_bits % 8;\s*let is_mutable_buffer_byte_aligned = bit_offset == (0);[\s\S]*?let bits_to_next_byte = \(8 - bit_offset\)[\s\S]*?\.min\(len_in_bits\);[\s\S]*?let right_byte_offset = right_offset_in_bits / 8;[\s\S]*?&right\.as_ref\(\)\[right_byte_offset\.\.\],\s*bits_to_next_byte,\s*// Right bit offset\s*right_offset_in_bits % 8,\s*\);[\s\S]*?let offset_in_bits = left_offset_in_bits \+ bits_to_next_byte;\s*let right_offset_in_bits = right_offset_in_bits \+ bits_to_next_byte;\s*let len_in_bits = len_in_bits\.saturating_sub\(bits_to_next_byte\);", "int"),
+]
